@@ -94,6 +94,49 @@ theorem op_keeps_session_clean {cfg : Config} (hs : cfg.Sound) (lt : Nat → Nat
    (step_clean cfg hs.noFrameWrite hs.tracingRestored lt P o s).2,
    step_parsing cfg hs.noFrameWrite hs.parseRestores lt P o s⟩
 
+/-! ## the program text changes between operations (a file that is edited and loaded again) -/
+
+/-- **C11 across versions, general form**: the history may consist of operations on ANY earlier versions of
+    the definitions (other pools: bodies, signatures, dependencies, nested functions … all may differ); what
+    `d.check()` and `compile d` return for the current version is what they return in a fresh session.  This
+    holds because `State` carries nothing that was derived from the text of a definition past `reset()`; that
+    `State` lists everything that survives is re-checked by the inventories below
+    (`session_globals_classified`, `counters_classified`, `reset_clears_all_caches`) and by the differential run
+    over edited files. -/
+theorem compile_version_history_free_of_sound {cfg : Config} (hs : cfg.Sound) {lt : Nat → Nat → Bool}
+    (hlt : cfg.checkRestartsTmp = true ∨ ShiftInv lt) : (vsys cfg lt).HistoryFree := by
+  intro h P d
+  have hc := vexec_clean cfg hs.noFrameWrite hs.tracingRestored lt h State.init
+  show observe cfg lt P ((vsys cfg lt).exec h State.init) d = observe cfg lt P State.init d
+  unfold observe
+  rw [(check_rel cfg hs.noFrameWrite hs.resets hs.parsingCleared P d hc.1 hc.2).2,
+    lower_rel cfg hs.noFrameWrite hs.resets hs.parsingCleared hlt P d hc.1 hc.2]
+
+/-- **C11 across versions at full strength**, for the code as it is -/
+theorem compile_version_history_free : (vsys Gen.config nameLt).HistoryFree :=
+  compile_version_history_free_of_sound real_config_sound (Or.inl real_config_restarts_tmp)
+
+/-- non-vacuity: version 1 (`x + 1`-like: one `%tmp`, one return) is compiled, then the edited version 2 (two
+    `%tmp` in one row) of the same definition: the result is that of version 2 -/
+example : (vsys Gen.config nameLt).observe [⟨[], false, false, 1, 2, 0, [[0, 1]], [], false, false, false⟩]
+    ((vsys Gen.config nameLt).exec
+      [([⟨[], false, false, 1, 1, 0, [[0]], [], false, false, false⟩], .lower 0)] State.init) 0
+    = (.ok (), .ok [⟨0, 1, [[0, 1]], none⟩]) := by decide
+
+/-- what a parse cache keyed by the POSITION of a definition (file, line) that survives `reset()` does: an
+    operation on the new text sees, for every position already parsed, the old definition -/
+def staleView (old new : Pool) : Pool :=
+  new.zipIdx.map fun (r, i) => (old[i]?).getD r
+
+/-- … and that is observable (so no such cache may exist): version 1 of a definition is well typed, version 2,
+    at the same position, is not; through the stale view version 2 still compiles -/
+theorem position_keyed_source_cache_observable :
+    (vsys Gen.config nameLt).observe
+        (staleView [⟨[], false, false, 1, 0, 0, [], [], false, false, false⟩]
+          [⟨[], true, false, 1, 0, 0, [], [], false, false, false⟩]) State.init 0
+      ≠ (vsys Gen.config nameLt).observe [⟨[], true, false, 1, 0, 0, [], [], false, false, false⟩] State.init 0 := by
+  decide
+
 /-! ## without the restart of the numbering the full statement is false for the order the code uses -/
 
 /-- the configuration of the code before `fix: restart the numbering of temporary variables…` -/
@@ -256,6 +299,16 @@ theorem relower_agrees_on_recPool :
     cleared by `reset()` -/
 theorem reset_clears_all_caches :
     Gen.engineAttrs.all (fun a => a == "additional_extensions" || Gen.resetClears.contains a) = true := by
+  decide
+
+/-- module-level mutable containers that are written from inside a function, and functions memoised with
+    `functools.cache` / `lru_cache`, anywhere in the package: state that lives outside the `CompilationEngine`
+    and survives `reset()`.  Exactly the two classified here exist: `builtin_defs()` (the builtin definition
+    table, built once, independent of user code) and `qubit_ty()` (a constant).  A NEW one — e.g. a cache of
+    parsed sources keyed by file and line — breaks this theorem and with it the premise of
+    `compile_version_history_free` that `State` is all that survives. -/
+theorem session_globals_classified :
+    Gen.sessionGlobals = ["checker/core.py:@cache builtin_defs", "tys/qubit.py:@functools.cache qubit_ty"] := by
   decide
 
 /-- nobody outside the checker reads `input_tys`, and nobody writes into a frame namespace -/
